@@ -36,16 +36,25 @@ alignas(16) static char g_namebuf[(VF_NCOL + 2) * sizeof(String)];
 template<> VectorT<String>::iterator VectorT<String>::begin() { return iterator((String*)g_namebuf); }
 template<> VectorT<String>::iterator VectorT<String>::erase(const_iterator pos)
 {
-  int i = (int)(&*pos - (const String*)g_namebuf);
-  for (int j = i; j + 1 < g_nnames; j++) g_names[j] = g_names[j + 1];
+  int i = (int)(&*pos - (const String*)g_namebuf); // may be symbolic: shift branch-free
+  for (int j = 0; j + 1 < g_nnames; j++) g_names[j] = (j >= i) ? g_names[j + 1] : g_names[j];
   g_nnames--;
   return iterator((String*)g_namebuf + i);
+}
+// ELoc::fromValue looks the object up in the static std::map (empty without static constructors):
+// table of role-type objects owned by the harness, entry v+1 has value v
+alignas(16) static char g_elocbuf[(VF_NELOC + 1) * sizeof(ELoc)];
+const ELoc& ELoc::fromValue(int value)
+{
+  int i = (value >= 0 && value < VF_NELOC) ? value + 1 : 0;
+  return *((const ELoc*)g_elocbuf + i);
 }
 
 // ---- role-type objects.  The library's static ELoc objects are zero in the solver build (no static
 // constructors): give the ones the kernels read their documented values.
 static void vf_eloc_init()
 {
+  for (int v = -1; v < VF_NELOC; v++) ((ELoc*)g_elocbuf + (v + 1))->_value = v;
 #ifdef VF_SOLVER
   const_cast<ELoc&>(ELoc::UNKNOWN)._value = -1;
   const_cast<ELoc&>(ELoc::X)._value       = 0;
@@ -152,6 +161,7 @@ static void vf_injection(int* out, int n, int m)
 }
 static int g_uoc[VF_NCOL + 1];
 static int g_pool[VF_NCOL + 1];
+static int g_permdrawn[VF_NCOL + 1]; // g_pool[i] == g_uoc[g_permdrawn[i]]
 static Db* vf_db_tables()
 {
   Db* db = vf_db_raw(VF_NCOL, VF_NUID, VF_NECH);
@@ -163,7 +173,7 @@ static Db* vf_db_tables()
     db->_uidcol[u] = c;
   }
   for (int i = 0; i < VF_NCOL * VF_NECH; i++) db->_array[i] = vf_finite_double();
-  int perm[VF_NCOL + 1];
+  int* perm = g_permdrawn;
   vf_injection(perm, VF_NCOL, VF_NCOL);
   for (int i = 0; i < VF_NCOL; i++)
   {
